@@ -264,8 +264,10 @@ class Model(object):
             return None
         k = min(inside, key=lambda kk: self.sgs[kk]['lat_inc'])
         sg = self.sgs[k]
-        row = int((lat_s - sg['s_lat']) / sg['lat_inc'])
-        col = int((lon_s - sg['e_long']) / sg['long_inc'])
+        # the enclosing cell; a position within rounding error of the northern / western extent
+        # (still strictly inside) belongs to the last row / column of cells
+        row = min(int((lat_s - sg['s_lat']) / sg['lat_inc']), sg['nrow'] - 2)
+        col = min(int((lon_s - sg['e_long']) / sg['long_inc']), sg['ncol'] - 2)
         y = (lat_s - (sg['s_lat'] + row * sg['lat_inc'])) / sg['lat_inc']
         x = (lon_s - (sg['e_long'] + col * sg['long_inc'])) / sg['long_inc']
         return {'k': k, 'row': row, 'col': col, 'x': x, 'y': y, 'n_inside': len(inside), 'inside': inside}
@@ -396,7 +398,7 @@ class C17(CheckBase):
     run_timeout = 60
     required_probes = ['stencil_would_leave_grid', 'overlap_resolved_by_spacing', 'query_in_last_subgrid_of_file',
                        'query_in_non_first_subgrid', 'relevant_corruption_changes_answer',
-                       'just_inside', 'just_outside', 'second_grid_file_in_run']
+                       'just_inside', 'just_outside', 'second_grid_file_in_run', 'ulp_inside_boundary']
     components = {
         'real': ['geodepy.ntv2reader (read_ntv2_file, interpolate_ntv2, SubGrid.ntv2_bilinear / ntv2_bicubic)',
                  'geodepy.transform.ntv2_2d', 'struct', 'numpy'],
@@ -433,7 +435,7 @@ class C17(CheckBase):
             k = rng.randrange(len(sgs))
             sg = sgs[k]
             cls = rng.choice(['node', 'edge', 'interior', 'interior', 'ring', 'ring', 'ring', 'corner',
-                              'just-inside', 'just-outside', 'far'])
+                              'just-inside', 'just-outside', 'far', 'ulp-inside'])
             lat, lon = self._position(rng, sg, cls)
             method = rng.choice(['bicubic', 'bicubic', 'bilinear'])
             if rng.random() < 0.2:
@@ -505,6 +507,24 @@ class C17(CheckBase):
         elif cls == 'corner':
             rr = rng.choice([0, nrow - 2]) + fr(rng)
             cc = rng.choice([0, ncol - 2]) + fr(rng)
+        elif cls == 'ulp-inside':
+            # 1..3 representable numbers inside an extent boundary (decimal degrees)
+            rr = rng.randrange(0, nrow - 1) + fr(rng)
+            cc = rng.randrange(0, ncol - 1) + fr(rng)
+            lat = (sg['s_lat'] + rr * sg['lat_inc']) / 3600
+            lon = -(sg['e_long'] + cc * sg['long_inc']) / 3600
+            b = _bbox(sg)
+            side = rng.choice('SNEW')
+            k = rng.randrange(1, 4)
+            if side in 'SN':
+                lat = b[0] / 3600 if side == 'S' else b[1] / 3600
+                for _ in range(k):
+                    lat = math.nextafter(lat, 1e9 if side == 'S' else -1e9)
+            else:
+                lon = -b[2] / 3600 if side == 'E' else -b[3] / 3600
+                for _ in range(k):
+                    lon = math.nextafter(lon, -1e9 if side == 'E' else 1e9)
+            return lat, lon
         elif cls in ('just-inside', 'just-outside'):
             rr = rng.randrange(0, nrow - 1) + fr(rng)
             cc = rng.randrange(0, ncol - 1) + fr(rng)
@@ -816,6 +836,8 @@ class C17(CheckBase):
                     if k2 != loc['k']:
                         d['note'] = 'position is also inside coarser sub-grid %s' % spec['subgrids'][k2]['name']
                 V('model-' + nm, site, d)
+        if op.get('cls') == 'ulp-inside':
+            bump('probe:ulp_inside_boundary')
         if op.get('cls') == 'just-inside':
             bump('probe:just_inside')
         elif op.get('cls') == 'just-outside':
